@@ -36,7 +36,9 @@ def c03(tier):
 
 def lit_ctx(prop, tier, ctxs=(0, 1, 2, 3)):
     """Literal / comment templates with k arbitrary body bytes, in context (harness/zz_verif_h_lit.go)."""
-    k = 2 if tier == "quick" else 3
+    # bodies of 3 bytes only where a complete thorough run was made with them (C10); the
+    # other properties keep the quick bound in both tiers
+    k = 3 if (tier != "quick" and prop == 10) else 2
     runs = []
     for form in range(9):
         for ctx in ctxs:
@@ -138,6 +140,8 @@ def fam_mut(prop, tier):
         for mut in (0, 1, 2, 3):
             for wrap in ((1,) if f in (6, 7) else (0,)):
                 bud = 2 if (f in (6, 7) or not q) else 1
+                if mut == 3 and prop != 10 and f not in (6, 7):
+                    bud = 1   # comma insertion: the thorough budget was only run to completion for C10
                 runs.append(dict(harness="verifHarness_FamMut", args=[prop, f, bud, 2, mut, wrap]))
     return runs
 
@@ -347,7 +351,7 @@ PROPS = {
                 outside="longer inputs"),
     "C03": dict(level="model_checking", runs=c03_all,
                 bounds={"quick": "all byte strings of length <= 2 for the nine Parse* entry points, <= 3 for SplitRawStatements and the NextToken loop; literal/comment templates (7 quote forms, /* */, --) with bodies of <= 2 arbitrary bytes, alone, after 'SELECT 1; SELECT', at the end of a WHERE clause and inside CAST(); recovery soups, family sentences and their mutations, the corpus",
-                        "thorough": "all byte strings of length <= 3 for the nine Parse* entry points, <= 4 for SplitRawStatements and the NextToken loop; template bodies of <= 3 bytes (alone and after ';')"},
+                        "thorough": "all byte strings of length <= 3 for the nine Parse* entry points, <= 4 for SplitRawStatements and the NextToken loop; templates as in the quick tier"},
                 outside="longer inputs; stack exhaustion by deep nesting"),
     "C14": dict(level="model_checking", runs=cutpanics(c14), reach=["C14/both-accept", "C14/both-reject"],
                 bounds={"quick": "all byte strings of length <= 3 (and <= 2 after 'a.', dot-identifier mode); length 4 over the 24-symbol alphabet; literal templates: 6 prefixes x 5 quote forms (incl. back quote) x bodies of <= 2 arbitrary bytes x {end of input, followed by ' a'}",
